@@ -6,7 +6,7 @@ Never applies ==, in, hasattr or getattr(default) to library objects for bookkee
 from __future__ import annotations
 
 from . import lib
-from .lang import InjectedFault
+from .lang import InjectedError, InjectedFault
 
 
 def _norm_value(L, v, depth=0):
@@ -39,7 +39,7 @@ _PLAIN = (bool, int, float, str, bytes, _dt.date, _dt.time, _dt.datetime, _dec.D
 def _try(f):
     try:
         return f()
-    except InjectedFault:
+    except (InjectedFault, InjectedError):
         raise
     except Exception as e:  # noqa: BLE001
         return ["EXC", type(e).__name__]
